@@ -59,6 +59,42 @@ def generate():
     v, why = astlib.try_flag(set_fsync)
     out.append("Definition kvs_use_fsync : bool := %s.%s" % (astlib.coq_bool(bool(v)), "" if why is None else " (* %s *)" % why))
 
+    def every_path():
+        """every call path from KeyValueStorage.set to _write_file carries use_fsync: the submit of _write_file and every
+        call of update_file from inside update_file (the wait-then-retry) pass the parameter on"""
+        m = astlib.module("klongpy/db/file_cache.py")
+        cls = astlib.find_class(m, "FileCache")
+        uf = astlib.find_func(cls, "update_file")
+        params = [a.arg for a in uf.args.args] + [a.arg for a in uf.args.kwonlyargs]
+        if "use_fsync" not in params:
+            raise ShapeError("update_file has no use_fsync parameter")
+        subs = astlib.calls_in(uf, "submit")
+        if not subs:
+            raise ShapeError("update_file does not submit a task")
+        for c in subs:
+            if not c.args or ast.unparse(c.args[0]) != "self._write_file":
+                raise ShapeError("update_file submits something other than self._write_file")
+            kw = {k.arg: ast.unparse(k.value) for k in c.keywords}
+            if not ((len(c.args) == 4 and ast.unparse(c.args[3]) == "use_fsync") or kw.get("use_fsync") == "use_fsync"):
+                return False
+        for c in astlib.calls_in(uf, "update_file"):
+            kw = {k.arg: ast.unparse(k.value) for k in c.keywords}
+            positional = len(c.args) >= 3 and ast.unparse(c.args[2]) == "use_fsync" and "use_fsync" in [a.arg for a in uf.args.args]
+            if not (positional or kw.get("use_fsync") == "use_fsync"):
+                return False
+        # anything else in the class that writes through _write_file must be update_file
+        for fn in cls.body:
+            if isinstance(fn, ast.FunctionDef) and fn.name != "update_file" and astlib.calls_in(fn, "_write_file"):
+                raise ShapeError("%s calls _write_file" % fn.name)
+            if isinstance(fn, ast.FunctionDef) and fn.name != "update_file":
+                for c in astlib.calls_in(fn, "submit"):
+                    if c.args and ast.unparse(c.args[0]) == "self._write_file":
+                        raise ShapeError("%s submits _write_file" % fn.name)
+        # the wrapper passes the flag by keyword or as third positional argument, both accepted by the signature
+        return True
+    v, why = astlib.try_flag(every_path)
+    out.append("Definition use_fsync_on_every_write_path : bool := %s.%s" % (astlib.coq_bool(bool(v)), "" if why is None else " (* %s *)" % why))
+
     def write_file():
         m = astlib.module("klongpy/db/file_cache.py")
         cls = astlib.find_class(m, "FileCache")
@@ -130,16 +166,54 @@ def generate():
 
 # ---------------------------------------------------------------- (a) the real system-call trace
 CHILD = r'''
-import os, sys, json
+import os, sys, json, threading, time
+import klongpy.db.file_cache as fcm
 from klongpy.db.sys_fn_kvs import KeyValueStorage
 jobs = json.loads(open(sys.argv[1]).read())
 def mark(i):
     try: os.unlink("/nonexistent-c17-marker-%d" % i)
     except OSError: pass
 n = 0
-for root, sets in jobs:
+for job in jobs:
+    root, sets = job[0], job[1]
+    conc = len(job) > 2 and job[2] == "set-during-load"
     st = KeyValueStorage(root)
-    for (k, size, fill) in sets:
+    last = len(sets) - 1
+    for i, (k, size, fill) in enumerate(sets):
+        if conc and i == last:
+            # the last set runs while a get of the same key is in flight on a FRESH store object: the load is held
+            # inside an interposed open() of klongpy.db.file_cache until the set is parked in update_file
+            st.cache.executor.shutdown(wait=True)
+            st = KeyValueStorage(root)
+            gate = {"armed": True, "entered": threading.Event(), "release": threading.Event()}
+            real_open = open
+            def hooked_open(path, mode="r", *a, **kw):
+                if "r" in mode and "+" not in mode and gate["armed"]:
+                    gate["armed"] = False
+                    gate["entered"].set()
+                    gate["release"].wait(60)
+                return real_open(path, mode, *a, **kw)
+            fcm.open = hooked_open
+            g = threading.Thread(target=lambda: st.get(k))
+            g.start()
+            gate["entered"].wait(60)
+            mark(n); n += 1
+            t = threading.Thread(target=lambda: st.set(k, bytes([fill]) * size))
+            t.start()
+            def parked():
+                fr = sys._current_frames().get(t.ident)
+                names = []
+                while fr is not None:
+                    names.append(fr.f_code.co_name); fr = fr.f_back
+                return "update_file" in names and any(x in names for x in ("exception", "result", "wait"))
+            for _ in range(3000):
+                if parked() or not t.is_alive():
+                    break
+                time.sleep(0.01)
+            gate["release"].set()
+            t.join(120); g.join(120)
+            del fcm.__dict__["open"]
+            continue
         mark(n); n += 1
         st.set(k, bytes([fill]) * size)
     mark(n); n += 1
@@ -173,11 +247,12 @@ def strace_jobs(jobs, workdir):
                         PY, "-W", "ignore", "-c", CHILD, jf], env=env, stdout=subprocess.PIPE, stderr=subprocess.PIPE, timeout=900)
     if p.returncode != 0:
         raise RuntimeError("strace child failed: %s" % p.stderr.decode()[-800:])
-    segs = parse_strace(trf, [r for r, sets in jobs for _ in range(len(sets) + 1)])
+    segs = parse_strace(trf, [job[0] for job in jobs for _ in range(len(job[1]) + 1)])
     os.unlink(trf)
     os.unlink(jf)
     out, i = [], 0
-    for root, sets in jobs:
+    for job in jobs:
+        sets = job[1]
         out.append(segs[i:i + len(sets)])
         i += len(sets) + 1
     return out
@@ -196,6 +271,7 @@ def parse_strace(trf, roots):
     """roots[i] = the store root that segment i (after marker i) belongs to"""
     per_set, cur, root = [], None, None
     pending = {}
+    wfds = set()          # descriptors opened for writing (closes of read-only descriptors are not events)
     for line in open(trf, encoding="utf-8", errors="replace"):
         m = re.match(r"^(\d+)\s+(.*)$", line.rstrip("\n"))
         if not m:
@@ -227,10 +303,27 @@ def parse_strace(trf, roots):
             nm = rel_name(root, m1.group(1))
             flags = m1.group(2).split("|")
             if nm is not None and ret is not None and ret >= 0 and ("O_WRONLY" in flags or "O_RDWR" in flags):
+                wfds.add(ret)
                 cur.append(["open" if ("O_TRUNC" in flags and "O_CREAT" in flags) else "open-other:" + m1.group(2), nm])
+            elif ret is not None and ret >= 0:
+                wfds.discard(ret)
             continue
-        m1 = re.match(r"(write|fsync|fdatasync|close|ftruncate)\(\d+<([^>]+)>", rest)
+        m1 = re.match(r"(write|fsync|fdatasync|close|ftruncate)\((\d+)<([^>]+)>", rest)
         if m1:
+            fdn = int(m1.group(2))
+            m1 = (m1.group(1), m1.group(3))
+            if m1[0] == "close" and fdn not in wfds and not os.path.isdir(m1[1]):
+                continue
+            if m1[0] == "close":
+                wfds.discard(fdn)
+
+            class _M:
+                def __init__(self, a, b):
+                    self.a, self.b = a, b
+
+                def group(self, i):
+                    return self.a if i == 1 else self.b
+            m1 = _M(m1[0], m1[1])
             nm = rel_name(root, m1.group(2))
             if nm is None or nm == []:
                 # fsync of the root directory or a sub directory would show here
@@ -326,11 +419,19 @@ def check_traces(chk, rng, workdir, flags, bufsize):
         root = os.path.join(workdir, "tr%d_r" % j)
         os.makedirs(root)
         jobs.append([root, seq])
+    # one deterministic concurrent scenario: the last set runs while a get of the same key is in flight on a fresh store
+    conc_seq = [["o", 9, 70], ["k", 20, 71], ["k", 30, 72]]
+    conc_root = os.path.join(workdir, "trconc_r")
+    os.makedirs(conc_root)
+    jobs.append([conc_root, conc_seq, "set-during-load"])
+    seqs = seqs + [conc_seq]
     try:
         all_sets = strace_jobs(jobs, workdir)
     finally:
-        for root, _ in jobs:
-            shutil.rmtree(root, ignore_errors=True)
+        for job in jobs:
+            shutil.rmtree(job[0], ignore_errors=True)
+    chk.count("concurrent_set_during_load_scenarios")
+    bad_img = recorded_final_images(chk, conc_seq, all_sets[-1], workdir)
     for j, seq in enumerate(seqs):
         per_set = all_sets[j]
         if len(per_set) != len(seq):
@@ -381,7 +482,67 @@ def check_traces(chk, rng, workdir, flags, bufsize):
             if bad_prop is None:
                 bad_prop = rep
         chk.sample({"sets": [[k, l] for (k, _, _), l in zip(seq, lens)], "trace": rt[0], "journalled_ok": jr_ok, "strict_ok": strict_ok}, limit=3)
+    if bad_prop is None and bad_img is not None:
+        bad_prop = bad_img
     return bad_prop, bad_corr, findings
+
+
+def recorded_final_images(chk, seq, per_set, workdir):
+    """crash images of the state after the RECORDED trace of a sequence (all sets returned), read by a fresh real store"""
+    from klongpy.db.sys_fn_kvs import KeyValueStorage
+    from klongpy.db.helpers import serialize_obj
+    from klongpy.core import KLONG_UNDEFINED
+    vals = [bytes([fill]) * size for _, size, fill in seq]
+    pays = [list(serialize_obj(v)) for v in vals]
+    evs = []
+    for i, es in enumerate(per_set):
+        off = 0
+        for e in es:
+            if e[0] == "write":
+                evs.append(["write", list(e[1]), pays[i][off:off + e[2]]])
+                off += e[2]
+            elif e[0] in ("mkdir", "open", "fsync", "close", "fsyncdir"):
+                evs.append([e[0], list(e[1])])
+    expected = {}
+    for (k, _, _), v in zip(seq, vals):
+        expected[k] = v
+    keys = sorted(expected)
+    cands = chk.run_model([sx(["cands", 0, key_to_name(k), ["evs"] + evs]) for k in keys])
+    cands = dict(zip(keys, cands))
+    for k in keys:
+        for c in cands[k][:40]:
+            root = os.path.join(workdir, "imgc")
+            shutil.rmtree(root, ignore_errors=True)
+            os.makedirs(root)
+            img = {kk: (c if kk == k else cands[kk][0]) for kk in keys}
+            for kk, cc in img.items():
+                if cc[0] == "some":
+                    pth = os.path.join(root, kk)
+                    os.makedirs(os.path.dirname(pth), exist_ok=True)
+                    with open(pth, "wb") as f:
+                        f.write(bytes(cc[1]))
+            st = KeyValueStorage(root)
+            try:
+                for kk in keys:
+                    chk.count("evaluations")
+                    chk.count("image_reads")
+                    try:
+                        got = st.get(kk)
+                        got = None if got is KLONG_UNDEFINED else got
+                        err = None
+                    except BaseException as e:  # noqa
+                        got, err = None, type(e).__name__
+                    if err is not None or got != expected[kk]:
+                        return {"kind": "crash-image-of-recorded-trace", "sets": seq, "scenario": "the last set ran while a get of the same key was in flight on a freshly opened store",
+                                "recorded_trace": [[e[0], e[1]] + ([len(e[2])] if e[0] == "write" else []) for e in evs],
+                                "image": {a: (b[0], len(b[1]) if len(b) > 1 else 0) for a, b in img.items()}, "key": kk,
+                                "read": repr(got)[:60], "error": err,
+                                "what": "after every set had returned, a crash image allowed by the recorded trace reads key %s as %s (%s), last completed value %s"
+                                        % (kk, repr(got)[:40], err, repr(expected[kk])[:40])}
+            finally:
+                st.cache.executor.shutdown(wait=False)
+                shutil.rmtree(root, ignore_errors=True)
+    return None
 
 
 # ---------------------------------------------------------------- (b) materialised crash images read by the real store
@@ -619,7 +780,7 @@ def run(tier, replay=None):
         proof["error"] = "forbidden declarations: %r" % hits
         proof["broken"] = hits[0]
     fl = "flush_before_fsync : bool := true" in gen
-    uf = "kvs_use_fsync : bool := true" in gen
+    uf = "kvs_use_fsync : bool := true" in gen and "use_fsync_on_every_write_path : bool := true" in gen
     sd = "sync_new_dirs : bool := true" in gen
     workdir = os.path.join(VERIF, ".work", "C17-%d" % os.getpid())
     shutil.rmtree(workdir, ignore_errors=True)
